@@ -74,6 +74,11 @@ func grammarCase0(ctx *Ctx, i int, prec bool) (*wl.Spec, string) {
 		// hundreds of productions
 		return wl.ManyRules(r.Sub("many")), "many-rules"
 	}
+	if i%per == 33 && (ctx.Prop == "C09" || ctx.Prop == "C03" || ctx.Prop == "C05" || ctx.Thorough()) {
+		// (quick tier: only where the generator stops after the tables; printing a 900 x 310 table takes it a minute)
+		// more than 256 grammar symbols
+		return wl.ManySymbols(r.Sub("syms")), "many-symbols"
+	}
 	if i%per == 7 {
 		// more than 64 table columns
 		return wl.BigCFG(r.Sub("big")), "big"
